@@ -830,6 +830,9 @@ func getRequestables(
 
 			mapping.Add(index, f.Name)
 		case *request.Similarity:
+			if f.Target == "" {
+				return nil, nil, ErrSimilarityTargetMissing
+			}
 			index := mapping.GetNextIndex()
 			fields = append(fields, &Similarity{
 				Field: Field{
